@@ -284,7 +284,84 @@ theorem covariance_isInverse (hpos : ∀ x : F, 0 < x → 0 < Transc.sqrt x) (r 
       rw [Finset.sum_congr rfl hterm, ← Finset.mul_sum, hinv i j hi' hj]
       split <;> simp
 
+/-- **gaussian_fit_normal_equations_solve** (second review, B).  The returned-coefficient theorem for the model of the code's
+OWN solver `Cv.solve` (not an abstract exact solver): unpenalised Gaussian `fit Cv.solve`, whatever the status; the only
+hypothesis beyond `¬ 0 < α` is that the RETURNED information matrix is regular (`SqrtOk ∧ LuPivotsNonzero`, under which C01
+proves `Cv.solve` exact) — for the Gaussian family the information of the last pass is the stored one. -/
+theorem gaussian_fit_normal_equations_solve (hpos : ∀ x : F, 0 < x → 0 < Transc.sqrt x) (x y : List F)
+    (weights offsets : Option (List F)) (alpha tol : F) (maxIter : Nat) (r : Fit F) (ha : ¬ 0 < alpha)
+    (hreg : Cv.C01Solve.Regular r.p r.information)
+    (h : fit Cv.solve .gaussian x y weights offsets alpha tol maxIter = some r) :
+    ∃ w, resolveWeights weights y.length = some w ∧ r.coef.length = r.p ∧
+      ∀ j, j < r.p →
+        ∑ k ∈ Finset.range r.p,
+            (∑ i ∈ Finset.range y.length, x[i * r.p + j]! * w[i]! * x[i * r.p + k]!) * r.coef[k]! =
+          ∑ i ∈ Finset.range y.length, x[i * r.p + j]! * w[i]! * (y[i]! - offAt offsets i) := by
+  obtain ⟨P, st0, st, h1, h2, h3⟩ := fit_some h
+  obtain ⟨_, _, hal, hf, hoff, hx, hy, hn, hp, hd, hwl, hw1, hw2, _, _, hc0⟩ := fitInit_some h1
+  obtain ⟨_, hcoef, _, hinfo, _, hpp, _, _, _, _, _, _⟩ := fitFinish_some h3
+  obtain ⟨stp, hb, hlen⟩ := fitLoop_last Cv.solve P (maxIter - 1) st0 st h2
+  have hw : resolveWeights weights y.length = some P.weights := by
+    cases weights with
+    | none => rw [hw2 rfl]; rfl
+    | some w =>
+      have := hw1 w rfl
+      rw [this] at hwl ⊢
+      simp [resolveWeights, hwl]
+  have hpos' : 0 < P.p := by
+    unfold isDesign at hd
+    rw [hp] at hd
+    simp only [Option.bind_eq_bind, Option.bind_some] at hd
+    by_cases h0 : P.p = 0
+    · simp [h0] at hd
+    · omega
+  obtain ⟨hn0, hxl⟩ := Cv.C05L.isMatrix_some hp
+  have hl0 : st0.coef.length = P.p := by rw [hc0]; simp; omega
+  -- the pass with Cv.solve is a pass with the guarded solver
+  obtain ⟨eta, dbeta, ddbeta, s, coef, pd, e1, e2, e3, e4, e5, e6, e7⟩ := loopBody_some hb
+  have hI : r.information = ddbeta := by
+    subst e7
+    simp only at hinfo
+    rw [e3] at hinfo
+    exact (Option.some.inj hinfo).symm
+  have hb' : loopBody (Cv.C01Solve.solveRegular P.p) P stp = some st := by
+    apply Cv.C01Solve.loopBody_solveRegular P stp st hb
+    intro eta' dbeta' ddbeta' g1 g2 g3
+    rw [e1] at g1; obtain rfl := Option.some.inj g1
+    rw [e3] at g3; obtain rfl := Option.some.inj g3
+    have : (penalised P.alpha P.p stp.coef dbeta' ddbeta).2 = ddbeta := by
+      simp [penalised, hal, ha]
+    rw [this, ← hI, ← hpp]; exact hreg
+  have := gaussian_pass_solves (Cv.C01Solve.solveRegular P.p) P stp st hf (by rw [hal]; exact ha) (by rw [hn]; exact hn0) hpos'
+    (by rw [hx, hn]; exact hxl) (by rw [hy, hn]) (by rw [hwl, hn]) (by rw [hlen, hl0]) (Cv.C01Solve.glm_solver_exact hpos P.p) hb'
+  obtain ⟨hl, hne⟩ := this
+  refine ⟨P.weights, hw, by rw [hcoef, hl, hpp], ?_⟩
+  intro j hj
+  have := hne j (by rw [← hpp]; exact hj)
+  rw [hx, hy, hn, hoff, ← hcoef, ← hpp] at this
+  exact this
+
 end covariance
+
+section covexample
+attribute [local instance high] Cv.C01Solve.instTranscRatApps
+local instance : GlmScalar ℚ := ⟨fun _ => false, fun q => q.floor.toNat⟩
+
+/-- a fitted record with information `4·I₂`, deviance 6, `n − p = 3`: dispersion 2, covariance `½·I₂` -/
+def rCov : Fit ℚ :=
+  { ok := true, coef := [1, 2], deviance := 6, information := [4, 0, 0, 4], n := 5, p := 2, family := .gaussian,
+    offsets := none, nIter := 2, converged := true, pd := some 6, pdPrev := some 6 }
+
+theorem rCov_cov : coefCovariance Cv.invertMatrix rCov = some [1/2, 0, 0, 1/2] := by decide +kernel
+
+/-- `covariance_isInverse` applied: all hypotheses instantiated (exact `sqrt` on ℚ for the pivots, regular information) -/
+example : ∃ d, dispersion rCov = some d ∧ ([1/2, 0, 0, 1/2] : List ℚ).length = 2 * 2 ∧
+    ∀ i j, i < 2 → j < 2 →
+      ∑ k ∈ Finset.range 2, rCov.information[i * 2 + k]! * ([1/2, 0, 0, 1/2] : List ℚ)[k * 2 + j]! =
+        if i = j then d else 0 :=
+  covariance_isInverse Cv.C01Solve.sqrt_pos_ratA rCov [1/2, 0, 0, 1/2] 2 rfl Cv.C01Solve.ex_regular rCov_cov
+
+end covexample
 
 /-! ### examples (review C1, C2) -/
 
